@@ -70,12 +70,12 @@ class Explorer:
             self.unknowns += 1
         return r
 
-    def decide(self, node):
+    def decide(self, node, aux=None):
         i = len(self.trace)
         self._sync_facts()
         zn = self.tr(node)
         if i < len(self.prefix):
-            rec_node, v = self.prefix[i]
+            rec_node, v, _ = self.prefix[i]
             if rec_node is not node:
                 raise S.EngineError('non-deterministic re-execution (decision %d differs)' % i)
         else:
@@ -85,14 +85,14 @@ class Explorer:
             f_ok = rf != z3.unsat
             if t_ok and f_ok:
                 v = True
-                self.pending.append(list(self.trace) + [(node, False)])
+                self.pending.append(list(self.trace) + [(node, False, aux)])
             elif t_ok:
                 v = True
             elif f_ok:
                 v = False
             else:
                 raise Infeasible()
-        self.trace.append((node, v))
+        self.trace.append((node, v, aux))
         self.solver.add(zn if v else z3.Not(zn))
         return v
 
@@ -102,11 +102,10 @@ class Explorer:
         while True:
             i = len(self.trace)
             if i < len(self.prefix):
-                node, v = self.prefix[i]
-                if node.op != 'eq' or node.args[0] is not bvs.n and node.args[1] is not bvs.n:
+                val = self.prefix[i][2]
+                if val is None:
                     raise S.EngineError('non-deterministic re-execution in concretize')
-                c = node.args[1] if node.args[0] is bvs.n else node.args[0]
-                val = c.val
+                node = ir.bvcmp('eq', bvs.n, ir.bvconst(val, w))
             else:
                 self._sync_facts()
                 r = self._check()
@@ -116,11 +115,15 @@ class Explorer:
                     raise S.EngineError('solver unknown while concretising an index')
                 val = model_value(self.solver.model(), self.tr(bvs.n))
                 node = ir.bvcmp('eq', bvs.n, ir.bvconst(val, w))
-            if self.decide(node):
+            if node.op == 'const':
+                if node.val:
+                    return ir._tosigned(val, w) if bvs.signed else val
+                raise Infeasible()
+            if self.decide(node, val):
                 return ir._tosigned(val, w) if bvs.signed else val
 
     def pc(self):
-        return [n if v else ir.bnot(n) for n, v in self.trace]
+        return [n if v else ir.bnot(n) for n, v, _ in self.trace]
 
 
 def explore(fn, assumptions=(), max_paths=100000, timeout_ms=10000, prefix=''):
